@@ -565,6 +565,8 @@ class Interp:
         return out if out is not None else AV({"None"})
 
     def run_function(self, g, state, want_states=False):
+        if self.depth == 0:
+            self._cur_root = g
         ctxt = {"returns": [], "ret_states": [], "fn": g, "check_asserts": bool(self.assert_pred and self.assert_pred(g)), "live_out": set(g.params())}
         outs = self.block(g.node.body, [state], g, ctxt)
         for s in outs:
@@ -945,6 +947,16 @@ class Interp:
         for i, x in enumerate(c.args):
             if i + offset < len(names) and isinstance(x, (ast.Name, ast.Subscript)) and names[i + offset] in merged:
                 out = self.assign_expr(out, x, merged[names[i + offset]], fn)
+            elif i + offset < len(names) and names[i + offset] in merged and out is not None and isinstance(x, ast.Call) and isinstance(x.func, ast.Attribute) \
+                    and x.func.attr == "get" and x.args and isinstance(x.args[0], ast.Constant) and not x.keywords \
+                    and (len(x.args) == 1 or (len(x.args) == 2 and isinstance(x.args[1], ast.Constant) and x.args[1].value is None)) \
+                    and isinstance(x.func.value, (ast.Name, ast.Subscript)) and "None" not in merged[names[i + offset]].atoms:
+                # g(d.get("k")) holds and g excludes None: the key is present and d["k"] has what g established
+                pres = self.narrow(out, ast.Compare(left=x.args[0], ops=[ast.In()], comparators=[x.func.value]), True, fn)
+                if pres is None:
+                    return None
+                sub = ast.Subscript(value=x.func.value, slice=x.args[0], ctx=ast.Load())
+                out = self.assign_expr(pres, sub, merged[names[i + offset]], fn)
         for k in c.keywords:
             if k.arg in merged and isinstance(k.value, (ast.Name, ast.Subscript)):
                 out = self.assign_expr(out, k.value, merged[k.arg], fn)
@@ -1012,8 +1024,7 @@ class Interp:
             return True
         return False
 
-    @staticmethod
-    def _pure(e):
+    def _pure(self, e, _depth=0):
         for x in ast.walk(e):
             if isinstance(x, (ast.Await, ast.Yield, ast.YieldFrom, ast.NamedExpr, ast.Lambda)):
                 return False
@@ -1021,9 +1032,32 @@ class Interp:
                 f = x.func
                 ok = (isinstance(f, ast.Name) and f.id in ("all", "any", "isinstance", "callable", "hasattr", "bool", "type", "len", "str", "int")) or \
                     (isinstance(f, ast.Attribute) and f.attr in ("get", "keys", "values", "items", "match", "fullmatch", "startswith", "endswith", "isdigit"))
+                if not ok and isinstance(f, ast.Name) and _depth < 2:
+                    # a predicate of the repository itself (local `def` or module-level function) whose body is `return <pure expression>`
+                    d = self._pure_defs().get(f.id)
+                    ok = d is not None and self._pure(d, _depth + 1)
                 if not ok:
                     return False
         return True
+
+    def _pure_defs(self):
+        """name -> returned expression, for the single-`return <expr>` functions visible from the function being interpreted (its local defs and
+        the functions of its module)"""
+        g = getattr(self, "_cur_root", None)
+        if g is None:
+            return {}
+        key = g.qualname
+        cache = self.__dict__.setdefault("_pure_defs_cache", {})
+        if key not in cache:
+            out = {}
+            nodes = [n for n in ast.walk(g.node) if isinstance(n, ast.FunctionDef) and n is not g.node]
+            nodes += [f_.node for f_ in getattr(g.module, "funcs", {}).values()]
+            for n in nodes:
+                body = [s_ for s_ in n.body if not (isinstance(s_, ast.Expr) and isinstance(s_.value, ast.Constant))]
+                if len(body) == 1 and isinstance(body[0], ast.Return) and body[0].value is not None:
+                    out.setdefault(n.name, body[0].value)
+            cache[key] = out
+        return cache[key]
 
     def _fresh(self, hint="b"):
         n = self.__dict__.get("_fresh_n", 0) + 1
